@@ -138,7 +138,43 @@ func buildTree(spec treeSpec, rec *runRecord) []*cobra.Command {
 	return cmds
 }
 
+// cobraSideMarkers: register the markers with cobra's own API (RegisterFlagCompletionFunc,
+// ValidArgsFunction) instead of carapace's (op ccomplete, C20 second half)
+var cobraSideMarkers bool
+
+func registerCobraMarkers(spec treeSpec, cmds []*cobra.Command) {
+	for i, cs := range spec.Cmds {
+		i := i
+		carapace.Gen(cmds[i])
+		for _, f := range cs.Flags {
+			if f.Kind != "bool" && f.Kind != "count" {
+				name := f.Name
+				_ = cmds[i].RegisterFlagCompletionFunc(name, func(cmd *cobra.Command, args []string, toComplete string) ([]string, cobra.ShellCompDirective) {
+					d := cobra.ShellCompDirectiveNoFileComp
+					if len(name)%2 == 1 {
+						d |= cobra.ShellCompDirectiveNoSpace
+					}
+					return []string{marker(i, "flag_"+name) + "\tdesc of " + name, marker(i, "flag_"+name) + "2"}, d
+				})
+			}
+		}
+		if cs.NPos > 0 || cs.PosAny {
+			cmds[i].ValidArgsFunction = func(cmd *cobra.Command, args []string, toComplete string) ([]string, cobra.ShellCompDirective) {
+				d := cobra.ShellCompDirectiveNoFileComp
+				if len(args)%2 == 1 {
+					d |= cobra.ShellCompDirectiveNoSpace
+				}
+				return []string{marker(i, fmt.Sprintf("vaf%d", len(args))) + "\tafter[" + strings.Join(args, ",") + "]"}, d
+			}
+		}
+	}
+}
+
 func registerMarkers(spec treeSpec, cmds []*cobra.Command) {
+	if cobraSideMarkers {
+		registerCobraMarkers(spec, cmds)
+		return
+	}
 	for i, cs := range spec.Cmds {
 		g := carapace.Gen(cmds[i])
 		am := carapace.ActionMap{}
@@ -237,6 +273,7 @@ type parseIn struct {
 	Tree      treeSpec `json:"tree"`
 	Words     []string `json:"words"`     // the last one is the word under the cursor
 	HiddenEnv bool     `json:"hiddenEnv"` // CARAPACE_HIDDEN=1
+	CobraSide bool     `json:"cobraSide"` // ccomplete only: completions registered through cobra's API
 }
 
 func runParse(raw json.RawMessage) interface{} {
